@@ -202,6 +202,7 @@ class ContractMixin:
                     self._collect_consts(wl, self.comp_oracle_stack[-1])
             self.no_frame = nf
             env2[wname] = wl
+            st.env["WIT_" + wname] = wl  # ghost: the callee's existential witness, usable in the caller's proves/invariants
         for lab, txt in c.ensures.items():
             sg = dict(st.ghost)
             st.ghost["__top0__"] = pre.top
